@@ -41,6 +41,9 @@ enum Unit {
     Unary(U, bool),
     Binary(B, bool),
     Dag { n: usize, prefix: Vec<POp> },
+    /// w values live across out-of-line calls (register pressure around
+    /// atan2 / mod / libm call-outs; w > 12 spills to the stack in the JIT)
+    Fan { w: usize },
     Transform(bool),
 }
 
@@ -88,6 +91,9 @@ fn units(tier: Tier) -> Vec<Unit> {
         for p in spec.prefixes(n) {
             v.push(Unit::Dag { n, prefix: p });
         }
+    }
+    for w in 1..=(if tier == Tier::Quick { 16 } else { 24 }) {
+        v.push(Unit::Fan { w });
     }
     v
 }
@@ -540,12 +546,13 @@ impl Check for C03 {
             Unit::Unary(u, j) => format!("{} op {u:?}", if *j { "jit" } else { "vm" }),
             Unit::Binary(b, j) => format!("{} op {b:?}", if *j { "jit" } else { "vm" }),
             Unit::Dag { n, .. } => format!("dag n={n}"),
+            Unit::Fan { w } => format!("fan w={w}"),
             Unit::Transform(j) => format!("{} transform", if *j { "jit" } else { "vm" }),
         }
     }
     fn meta(&self, tier: Tier) -> Meta {
         Meta {
-            rule: "case = (program, box); (a) every opcode x operand form {reg, reg/reg, same-reg, reg/imm and imm/reg with 12 immediates} x every interval (pair) over the finite endpoint alphabet E (+op-specific boundary endpoints: quadrant boundaries, +-1+-ulp, exp/ln limits), sample points per interval = endpoints, midpoint, neighbours of the endpoints and every alphabet value inside, all combinations for binary ops; (b) every DAG up to the node bound over one representative op per interval-behaviour class {add,sub,mul,div,recip,sqrt,square,abs,sin,atan2,floor,mod,min,and,compare,not} with all nodes exported, boxes from a per-axis endpoint grid, points = corners/edge midpoints/centre, local obligation at every node on the intermediate intervals that actually arise (operand values clamped into the evaluator's operand intervals); (c) Shape API with 7 matrices (exact dyadic ones checked to 4 ulp, projective / 30-degree rotation to 1e-5 relative); VM and JIT; tolerance 4 ulp; excluded: NaN interval, NaN value, atan2(0,0); non-trivial = the returned interval is not the NaN interval".into(),
+            rule: "case = (program, box); (a) every opcode x operand form {reg, reg/reg, same-reg, reg/imm and imm/reg with 12 immediates} x every interval (pair) over the finite endpoint alphabet E (+op-specific boundary endpoints: quadrant boundaries, +-1+-ulp, exp/ln limits), sample points per interval = endpoints, midpoint, neighbours of the endpoints and every alphabet value inside, all combinations for binary ops; (b) fan families of width w = 1..16 (thorough 24): w values live across atan2 / mod / sin / exp call-outs, consumed in three orders, all nodes exported, 225 boxes; every DAG up to the node bound over one representative op per interval-behaviour class {add,sub,mul,div,recip,sqrt,square,abs,sin,atan2,floor,mod,min,and,compare,not} with all nodes exported, boxes from a per-axis endpoint grid, points = corners/edge midpoints/centre, local obligation at every node on the intermediate intervals that actually arise (operand values clamped into the evaluator's operand intervals); (c) Shape API with 7 matrices (exact dyadic ones checked to 4 ulp, projective / 30-degree rotation to 1e-5 relative); VM and JIT; tolerance 4 ulp; excluded: NaN interval, NaN value, atan2(0,0); non-trivial = the returned interval is not the NaN interval".into(),
             bounds: match tier {
                 Tier::Quick => "two-variable forms over 19 endpoints (190 intervals, 36100 pairs); DAG nodes <= 2".into(),
                 Tier::Thorough => "two-variable forms over the full endpoint alphabet; DAG nodes <= 3 (thinned box grid at n = 3)".into(),
@@ -570,6 +577,30 @@ impl Check for C03 {
             Unit::Binary(b, true) => binary_unit::<JitFunction>(cx, tier, b),
             Unit::Transform(false) => transform_unit::<VmFunction>(cx, tier),
             Unit::Transform(true) => transform_unit::<JitFunction>(cx, tier),
+            Unit::Fan { w } => {
+                use crate::prog::{Order, family_fan};
+                let e = [-2.0f32, -0.5, 0.25, 1.0, 3.0];
+                let iv = alpha::intervals(&e);
+                let boxes: Vec<Vec<(f32, f32)>> =
+                    iv.iter().flat_map(|a| iv.iter().map(move |b| vec![*a, *b])).collect();
+                let mut sub = 0u64;
+                for mid in [None, Some(U::Sin), Some(U::Exp), Some(U::Abs)] {
+                    for order in [Order::Forward, Order::Reverse, Order::Interleaved] {
+                        for comb in [B::Atan, B::Mod, B::Add, B::Min, B::Mul] {
+                            let s = sub;
+                            sub += 1;
+                            if !cx.case(s) {
+                                continue;
+                            }
+                            cx.add("cases", 1);
+                            cx.add("nontrivial", 1);
+                            let p = family_fan(w, mid, order, comb);
+                            dag_prog::<VmFunction>(cx, &p, &boxes);
+                            dag_prog::<JitFunction>(cx, &p, &boxes);
+                        }
+                    }
+                }
+            }
             Unit::Dag { n, prefix } => {
                 let spec = dag_spec();
                 let e: Vec<f32> = if n <= 2 {
